@@ -5,6 +5,8 @@ package markers
 // Contracts for the deductive checks in /verif (comment-only; see /verif/DESIGN.md).
 
 /*@
+import i "github.com/cockroachdb/redact/interfaces"
+
 -- Redactable strings and byte slices handed to the library are well-formed: this is the
 -- hypothesis of properties C01/C08 ("well-formed RedactableString/Bytes"), not something proved.
 invariant (s RedactableString)
@@ -72,6 +74,22 @@ func (s RedactableBytes) StripMarkers() (res []byte)
 func (s RedactableBytes) Redact() (r RedactableBytes)
   modifies rxre, rxsrc, rxsrcl, rxrepl, rxrepll, rxres, rxresl, alloc
   ensures [C07] rxre == ReStripSensitive && sameView(rxsrc, s) && rxsrcl == len(s) && RedactedRepl() && sameView(rxres, r) && rxresl == len(r)
+
+-- C08: a redactable value implements SafeFormatter by handing itself to the printer, once (that the operand is still
+-- TYPED as a redactable is not expressible: boxed strings and slices carry no dynamic type in this model)
+ghostvar gspn int
+ghostvar gspa u
+assume func (w i.SafeWriter) Print(args ...interface{})
+  modifies gspn, gspa
+  ensures gspn == old(gspn) + 1 && (len(args) == 1 ==> gspa == args[0])
+
+func (s RedactableString) SafeFormat(sp i.SafePrinter, _ rune)
+  modifies gspn, gspa
+  ensures [C08] gspn == old(gspn) + 1 && gspa == s
+
+func (s RedactableBytes) SafeFormat(sp i.SafePrinter, _ rune)
+  modifies gspn, gspa
+  ensures [C08] gspn == old(gspn) + 1
 
 -- the delimiters are handed out as new slices: a caller that writes into what it got cannot change the bytes the
 -- library itself uses from then on (C07: the []byte variants would disagree with the string variants; C12: shared state)
